@@ -1248,13 +1248,18 @@ class CSSMatch(_DocumentNav):
                 break
 
         # Use cached meta language.
+        cached = False
         if found_lang is None and self.cached_meta_lang:
             for cache in self.cached_meta_lang:
                 if root is cache[0]:
                     found_lang = cache[1]
+                    cached = True
 
         # If we couldn't find a language, and the document is HTML, look to meta to determine language.
-        if found_lang is None and (not self.is_xml or (has_html_namespace and root and root.name == 'html')):
+        if (
+            found_lang is None and not cached and
+            (not self.is_xml or (has_html_namespace and root and root.name == 'html'))
+        ):
             # Find head
             found = False
             for tag in ('html', 'head'):
@@ -1285,7 +1290,7 @@ class CSSMatch(_DocumentNav):
                     if found_lang is not None:
                         break
                 if found_lang is None:
-                    self.cached_meta_lang.append((cast(str, root), ''))
+                    self.cached_meta_lang.append((cast(str, root), None))  # type: ignore[arg-type]
 
         # If we determined a language, compare.
         if found_lang is not None:
